@@ -414,9 +414,11 @@ func (e c12Engine) Run(scAny any, keep bool) (out core.Outcome) {
 	var started []string
 	if b, err := os.ReadFile(startLog); err == nil {
 		started = strings.Split(strings.TrimSpace(string(b)), "\n")
+		sort.Strings(started) // children start concurrently with the interpreter: the order in the log is not an observation
 	}
-	log.Addf("flags exec=%v w=%v r=%v custom=%v marks=%v dones=%v seen=%q started=%q status=%d err=%q panic=%q dir=%x", sc.NoExec, sc.NoFileWrites, sc.NoFileReads, sc.CustomOpen,
-		st.marks, len(st.dones), st.seen, started, res.Status, res.errString(), res.Panic, core.HashString(after))
+	norm := func(s string) string { return strings.ReplaceAll(s, fs.Dir, "<fs>") } // the scratch directory has a random name
+	log.Addf("flags exec=%v w=%v r=%v custom=%v marks=%v dones=%v seen=%s started=%s status=%d err=%q panic=%q dir=%x", sc.NoExec, sc.NoFileWrites, sc.NoFileReads, sc.CustomOpen,
+		st.marks, len(st.dones), norm(fmt.Sprintf("%q", st.seen)), norm(fmt.Sprintf("%q", started)), res.Status, norm(res.errString()), res.Panic, core.HashString(norm(after)))
 	desc := fmt.Sprintf("flags{NoExec=%v NoFileWrites=%v NoFileReads=%v} custom_open=%v faults=%v args=%q program:\n%s", sc.NoExec, sc.NoFileWrites, sc.NoFileReads, sc.CustomOpen, sc.Faults, sc.Args, src)
 	fail := func(oracle, detail string) core.Outcome {
 		out.Fail = &core.Failure{Oracle: oracle, Detail: detail + "\n" + desc}
